@@ -202,6 +202,7 @@ func init() {
 		}
 		fmt.Fprintf(&e.out, "def deletedInstallsDefault : Bool := %v\n", deleted)
 		c20ExtractDelivery(e)
+		c20ExtractWiring(e)
 	}
 }
 
@@ -675,4 +676,171 @@ func c20QuoteAll(ss []string) string {
 		qs[i] = leanStr(s)
 	}
 	return strings.Join(qs, ", ")
+}
+
+// C20 round-5 extension: the WIRING (Model/C20Wire.lean) and the order of the node entries.
+//   * SetupWithManager: every For / Owns / Watches* call of the builder chain with the predicates given to it
+//     (builder.WithPredicates(...)) and the chain-wide WithEventFilter(...) predicates.  Among them, the controller-runtime
+//     predicates that look only at metadata and therefore DROP a ConfigMap Update that changes Data (Generation / Annotation /
+//     Label changed; a ConfigMap's generation never changes) resp. a Node Update that changes labels (Generation / Annotation)
+//     are listed separately: Ties demand none (WatchPred.Sound).  Custom predicate functions cannot be judged syntactically:
+//     that is what the executed wiring harness is for.
+//   * the handler given to the ConfigMap watch is the object installed as r.sloCfgCache
+//   * no function reachable (inside the package) from syncConfig / getNodeSLOSpec calls sort.* / slices.Sort* / slices.Reverse:
+//     the entries stay in document order between parsing and the first-match loops.
+func c20ExtractWiring(e *ext) {
+	d := "pkg/slo-controller/nodeslo"
+	var regs, kinds, global, cmDrop, nodeDrop []string
+	handlerIsCache := false
+	fd := e.funcDecl(d, "NodeSLOReconciler", "SetupWithManager")
+	if fd == nil || fd.Body == nil {
+		e.fail("SetupWithManager not found")
+	} else {
+		cacheVar := "" // r.sloCfgCache = <ident>
+		ast.Inspect(fd.Body, func(x ast.Node) bool {
+			if as, ok := x.(*ast.AssignStmt); ok && len(as.Lhs) == 1 && len(as.Rhs) == 1 {
+				if sel, ok := as.Lhs[0].(*ast.SelectorExpr); ok && sel.Sel.Name == "sloCfgCache" {
+					cacheVar = types.ExprString(as.Rhs[0])
+				}
+			}
+			return true
+		})
+		kindOf := func(x ast.Expr) string {
+			if u, ok := x.(*ast.UnaryExpr); ok {
+				x = u.X
+			}
+			if cl, ok := x.(*ast.CompositeLit); ok {
+				t := types.ExprString(cl.Type)
+				return t[strings.LastIndex(t, ".")+1:]
+			}
+			return types.ExprString(x)
+		}
+		type reg struct {
+			pos  token.Pos
+			text string
+		}
+		var found []reg
+		dropping := func(kind, pred string) {
+			for _, bad := range []string{"GenerationChanged", "AnnotationChanged", "LabelChanged"} {
+				if !strings.Contains(pred, bad) {
+					continue
+				}
+				if kind == "ConfigMap" || kind == "*" {
+					cmDrop = append(cmDrop, pred)
+				}
+				if (kind == "Node" || kind == "*") && bad != "LabelChanged" {
+					nodeDrop = append(nodeDrop, pred)
+				}
+			}
+		}
+		ast.Inspect(fd.Body, func(x ast.Node) bool {
+			c, ok := x.(*ast.CallExpr)
+			if !ok {
+				return true
+			}
+			sel, ok := c.Fun.(*ast.SelectorExpr)
+			if !ok {
+				return true
+			}
+			switch sel.Sel.Name {
+			case "For", "Owns", "Watches", "WatchesMetadata":
+				if len(c.Args) == 0 {
+					return true
+				}
+				kind := kindOf(c.Args[0])
+				var preds []string
+				optsFrom := 1
+				if strings.HasPrefix(sel.Sel.Name, "Watches") {
+					optsFrom = 2
+					if len(c.Args) > 1 && kind == "ConfigMap" && cacheVar != "" && types.ExprString(c.Args[1]) == cacheVar {
+						handlerIsCache = true
+					}
+				}
+				for _, o := range c.Args[min(optsFrom, len(c.Args)):] {
+					if oc, ok := o.(*ast.CallExpr); ok && strings.HasSuffix(types.ExprString(oc.Fun), "WithPredicates") {
+						for _, pa := range oc.Args {
+							ps := types.ExprString(pa)
+							preds = append(preds, ps)
+							dropping(kind, ps)
+						}
+					} else {
+						preds = append(preds, "opt:"+types.ExprString(o))
+						dropping(kind, types.ExprString(o))
+					}
+				}
+				kinds = append(kinds, kind)
+				found = append(found, reg{c.Pos(), fmt.Sprintf("%s %s [%s]", sel.Sel.Name, kind, strings.Join(preds, "; "))})
+			case "WatchesRawSource":
+				found = append(found, reg{c.Pos(), "WatchesRawSource"})
+			case "WithEventFilter":
+				for _, pa := range c.Args {
+					ps := types.ExprString(pa)
+					global = append(global, ps)
+					dropping("*", ps)
+				}
+			}
+			return true
+		})
+		// a method chain nests the EARLIER call deeper: order by the position of the selector instead
+		sort.Slice(found, func(i, j int) bool { return found[i].text < found[j].text })
+		for _, r := range found {
+			regs = append(regs, r.text)
+		}
+		sort.Strings(kinds)
+	}
+	fmt.Fprintf(&e.out, "def watchRegs : List String := [%s]\n", c20QuoteAll(regs))
+	fmt.Fprintf(&e.out, "def watchedKinds : List String := [%s]\n", c20QuoteAll(kinds))
+	fmt.Fprintf(&e.out, "def globalEventFilters : List String := [%s]\n", c20QuoteAll(global))
+	fmt.Fprintf(&e.out, "def cmWatchDroppingPredicates : List String := [%s]\n", c20QuoteAll(cmDrop))
+	fmt.Fprintf(&e.out, "def nodeWatchDroppingPredicates : List String := [%s]\n", c20QuoteAll(nodeDrop))
+	fmt.Fprintf(&e.out, "def cmWatchHandlerIsCache : Bool := %v\n", handlerIsCache)
+
+	// ---- calls that reorder slices, reachable inside the package from the config path
+	decls := map[string][]*ast.FuncDecl{}
+	for name, f := range e.dir(d) {
+		if strings.HasSuffix(name, "_test.go") {
+			continue
+		}
+		for _, dd := range f.Decls {
+			if fn, ok := dd.(*ast.FuncDecl); ok && fn.Body != nil {
+				decls[fn.Name.Name] = append(decls[fn.Name.Name], fn)
+			}
+		}
+	}
+	seen := map[string]bool{}
+	var reorder []string
+	var visit func(name string)
+	visit = func(name string) {
+		if seen[name] {
+			return
+		}
+		seen[name] = true
+		for _, fn := range decls[name] {
+			ast.Inspect(fn.Body, func(x ast.Node) bool {
+				c, ok := x.(*ast.CallExpr)
+				if !ok {
+					return true
+				}
+				full := types.ExprString(c.Fun)
+				if strings.HasPrefix(full, "sort.") || strings.HasPrefix(full, "slices.Sort") || full == "slices.Reverse" {
+					reorder = append(reorder, name+": "+full)
+				}
+				switch f := c.Fun.(type) {
+				case *ast.Ident:
+					visit(f.Name)
+				case *ast.SelectorExpr:
+					visit(f.Sel.Name)
+				}
+				return true
+			})
+		}
+	}
+	for _, root := range []string{"syncConfig", "syncNodeSLOSpecIfChanged", "getNodeSLOSpec", "GetCfgCopy"} {
+		if len(decls[root]) == 0 {
+			e.fail("%s not found", root)
+		}
+		visit(root)
+	}
+	sort.Strings(reorder)
+	fmt.Fprintf(&e.out, "def entryReorderCalls : List String := [%s]\n", c20QuoteAll(reorder))
 }
